@@ -3,6 +3,7 @@ pub mod c02;
 pub mod c03;
 pub mod c04;
 pub mod c05;
+pub mod c06;
 pub mod common;
 
 use crate::engine::PropertySpec;
@@ -14,8 +15,9 @@ pub fn spec(id: &str) -> Option<PropertySpec> {
         "C03" => Some(c03::spec()),
         "C04" => Some(c04::spec()),
         "C05" => Some(c05::spec()),
+        "C06" => Some(c06::spec()),
         _ => None,
     }
 }
 
-pub const ALL: [&str; 5] = ["C01", "C02", "C03", "C04", "C05"];
+pub const ALL: [&str; 6] = ["C01", "C02", "C03", "C04", "C05", "C06"];
